@@ -25,7 +25,9 @@ not in the property's list (statement, assignment, argument).""",
 for a negative step while comprehensions use the runtime range object and descend correctly — six known sites, one
 per loop context. Not repaired: the repository's golden tests pin `i < _gop_end; i += _gop_step` for computed steps,
 so no correct lowering passes the unedited suite. Loops carry an iteration guard (marker 99999) so a runaway loop is
-reported, not suffered; the filter of the filtered loop lets the body run after 60 calls for the same reason.""",
+reported, not suffered; the filter of the filtered loop lets the body run after 60 calls for the same reason. Three
+further loops per program have bounds written `len(x)` while the body grows `x` (the operands are evaluated once, like
+the runtime range object) — added after a second-wave seeded change was missed.""",
 "C05": """Q 40 programs × 12 literals / T 1 500. bool and sized-integer operands are rejected at compile time
 (`b.string undefined`: the documented meaning of `"${x}"` is `x.string`, which exists for int, int64, uint64,
 float64, string, error and Stringers) and are outside the domain although the property's quantifier names bools —
@@ -52,26 +54,38 @@ name) is caught in all package kinds.""",
 declaration under a multi-line block comment, probe). Round-0 deviation: run-time function entry lines
 (`FuncForPC(pc).Entry()`) turned out to depend on which instruction the Go compiler makes the prologue of a function
 without results; function declarations are judged on the written Go source through the //line-adjusted position of
-the `func` keyword instead (what the Go toolchain records for the declaration).""",
+the `func` keyword instead (what the Go toolchain records for the declaration). Statement kind `for-in-filter` was added
+after a second-wave seeded change was missed.""",
 "C10": "Q 40 programs × 6 overload sets / T 1 500. No defect found on the unchanged tree.",
-"C11": "Q 40 packages (1–3 class files) / T 1 500. No defect found on the unchanged tree.",
+"C11": """Q 40 packages (1–3 class files) / T 1 500. No defect found on the unchanged tree. Half of the packages declare
+package-level functions named like class methods that call each other bare (added after a second-wave seeded change
+was missed).""",
 "C12": """Q 700 files / T 20 000. One defect fixed (nil key in Info.Types for composite literals without type expression).
 Seventeen deviation classes are known findings, named by root cause: multi-name `:=`/const/embedded-field positions
 (gogen takes one position per declaration), synthetic AST built by cl for range-expression loops, for-in filters,
 auto-called identifiers under `!`, overload literals, operator calls and the shadow `main`, labels and blank
 definitions not recorded, builtins recorded as ordinary/template functions, type-switch variables recorded with the
 underlying type. Nodes inside interpolated strings and domain-text literals come from sub-parsers and count as nodes
-of the file. The comparison with go/types is made per identifier by byte offset.""",
+of the file. The comparison with go/types is made per identifier by byte offset. After seeded changes were missed the
+Go-compatible programs also contain package-level declarations placed after their first use (this exposed two genuine
+defects, both fixed: constants loaded on demand lost their Defs entry; a function loaded on demand saw the referring
+function's locals) and partial redeclarations by `:=`.""",
 "C13": "Q ≈10⁵ inputs / T ≈10⁶ in 11 mode combinations and 5 entry points; ten parser defects fixed (see appendix).",
 "C14": """Four by-design/unsupported Go features are known findings by feature signature (type parameters, union/~
-constraints, `$` in string literals, a blank between callee and `(`).""",
+constraints, `$` in string literals, a blank between callee and `(`). XGo's command-style syntax makes a few blanks
+significant by design; the re-spacing generator keeps those places untouched (blank before `(`/`[` after an operand,
+blanks around operators that can be unary), and the two variants met before that change (`ch <-v`, `m [k] = v`) are
+classified and listed as known findings of the same family.""",
 "C15": "Exhaustive short strings over a hostile alphabet plus lexeme streams; six scanner defects fixed.",
 "C16": """False alarms removed during construction: go/scanner ≥ 1.20 places the automatic semicolon after a trailing
 comment (XGo follows 1.18) → comments are compared separately and the auto-semicolon offset is normalised; `0i0`
 (XGo unit suffix) → reference-side domain filter. Two known findings (`!` and `...` followed by newline insert an
 automatic semicolon).""",
 "C17": """Rules that go/ast itself breaks were calibrated on go/parser trees and frozen in `c17_exempt.go`
-(`R4:FuncDecl:Ident,FuncType`, `R2:LabeledStmt`). Three AST span defects fixed.""",
+(`R4:FuncDecl:Ident,FuncType`, `R2:LabeledStmt`). Three AST span defects fixed. The re-parse rule R5 applies to
+context-free slices only: a slice that holds a comment together with a line break is skipped (where semicolons are
+inserted, and whether a bracket literal is read as rows, depends on the nesting the node was parsed at — false alarms
+met in thorough runs).""",
 "C18": "Synthesised trees populate every child field regardless of token; ast.Walk defect fixed (4a820ab).",
 "C19": """Comment injection belongs to C21's quantifier only and was removed from C19/C20 (false alarm: a comment moved
 across a token is 'comment placement'). Parentheses, empty statements and number spelling are normalised in the
@@ -79,7 +93,9 @@ comparison (gofmt conventions the property calls 'equal except positions').""",
 "C20": """One known finding (`format:not-idempotent:in:BlockStmt<LambdaExpr2<SliceLit`). After a seeded change was missed the
 workload also formats *unformatted* spellings: tightened variants (optional blanks next to punctuation removed) and
 files of one-line functions whose printed width lies around the printer's 100-column limit.""",
-"C21": "One known finding (`format:comment-in:EnvExpr`).",
+"C21": """Known findings: `format:comment-in:EnvExpr`, and — named by root cause, not by place — a comment that the printer
+flushes directly behind a `/` operator without a blank (`new([]int)///c3`: the text gains a slash). Star-bordered block
+comments were added to the injected shapes after a second-wave seeded change was missed.""",
 "C22": """The generator is restricted to trees XGo can express without source-level parentheses chosen by the author
 (lambdas only as call arguments, brace/bracket literals not as postfix operands or left of `*`, no bare `x!` directly
 before `:`); three `brace-expression-in-statement-header-needs-parentheses` sites are known findings; failing trees are
@@ -104,7 +120,8 @@ README-silent commit case); repetition bodies stay non-nullable.""",
 committed and reverted for that reason).""",
 "C39": """Scenario design notes: only client→server calls use callback mode (mutual callbacks deadlock by construction);
 an injected write failure also closes the pipe (a half-broken transport is not a state the real transports have).
-The `-race` binary needs the goroutine-state deadlock monitor (§1.7).""",
+The `-race` binary needs the goroutine-state deadlock monitor (§1.7). Fault kind `garbage` (a malformed header kills one
+side's reader while both write directions keep working) was added after a second-wave seeded change was missed.""",
 "C40": "porcupine timeout = inconclusive; a lost wake-up is decided by the deadlock monitor.",
 "C41": """One reader per direction; closing the reading end may drop data its feeder already holds (inherent). Every run keeps
 a Read pending on the closing side; pending calls must return and, when they fail, report io.EOF (added after a seeded
@@ -125,6 +142,13 @@ FALSE_ALARMS = """
 * C02/C05/C25/C01 generators producing ill-typed or non-terminating programs (placeholder clash with identifiers,
   `fl := 100`, writable loop counters, `[]` as []any source) → generators fixed; go/types validation is a skip, not a
   verdict.
+* C06 (thorough): the mechanical `main`→`Main` rename clashed with a corpus program that declares `Main` itself →
+  renamed to a reserved name; `} else if …{` headers were not recognised by the composite-literal classifier.
+* C07 (thorough): a harvested "snippet" that is itself error-message text was echoed inside a multi-line compiler message
+  and its lines were parsed as further error entries → only the head line of an entry carries a position.
+* C17 (thorough): slices holding a comment and a line break are not context-free → R5 skipped for them.
+* C14 (vp check / other seeds): re-spacing produced whitespace-sensitive command-syntax variants → generator keeps those
+  places, variants classified.
 * C09: run-time function entry line (prologue attribution of the Go compiler) → judged statically instead.
 * C12: nodes of sub-parsed literals (tpl grammar inside a domain-text literal) reported as foreign → count as file nodes.
 * Driver bugs found by their own symptoms: `continue` inside select after a watchdog (nil dereference), crash
